@@ -28,6 +28,8 @@ SVC = "service.SimpleService"
 
 
 def check(run, prog, tier):
+    from . import model as _model
+    _model.audit(run, prog, 'C17')
     # "the endpoints subscribed at that time" / "the current value": no stale copies
     cache_coherence(run, prog, "V5", ['service.SimpleEventgroup'])
     run.explanation = (
